@@ -47,6 +47,7 @@ OF OR IN CONNECTION WITH THE SOFTWARE OR THE USE OR OTHER DEALINGS IN THE SOFTWA
 #include "CoreSMTSolver.h"
 
 #include <api/GlobalStop.h>
+#include <common/VerifTrace.h>
 #include <common/InternalException.h>
 #include <common/Random.h>
 #include <common/ReportUtils.h>
@@ -232,6 +233,13 @@ bool CoreSMTSolver::addOriginalClause_(vec<Lit> && ps, pair<CRef, CRef> & inOutC
     inOutCRefs = {CRef_Undef, CRef_Undef};
     if (!isOK()) { return false; }
     bool logProof = this->logsResolutionProof();
+#ifdef OPENSMT_VERIF
+    if (OSMT_VERIF_TRACING()) {
+        // input clause as given (before level-0 simplification); clauses added by a deriving procedure (SatELite) are DERIVED
+        verif::emitClause(verif::inDerivation() ? std::string("DERIVED ") + verif::derivationSite() : std::string("ORIG"), theory_handler.getLogic(), ps,
+                          [this](Var v) { return theory_handler.varToTerm(v); });
+    }
+#endif
     // Check if clause is satisfied and remove false/duplicate literals:
     sort(ps);
     std::vector<Lit> resolvedUnits;
@@ -799,6 +807,9 @@ void CoreSMTSolver::analyze(CRef confl, vec<Lit>& out_learnt, int& out_btlevel)
     for (Lit l : analyze_toclear) {
         seen[var(l)] = 0;
     } // ('seen[]' is now cleared)
+#ifdef OPENSMT_VERIF
+    if (OSMT_VERIF_TRACING()) { verif::emitClause("DERIVED analyze", theory_handler.getLogic(), out_learnt, [this](Var v) { return theory_handler.varToTerm(v); }); }
+#endif
     assert(std::all_of(seen.begin(), seen.end(), [](char c) { return c == 0; }));
     // Cleanup generated lemmata
     if (not logProof) {
@@ -1020,6 +1031,9 @@ void CoreSMTSolver::analyzeFinal(Lit p, vec<Lit>& out_conflict)
     }
     assert(seen[var(p)] == 0);
     seen[var(p)] = 0;
+#ifdef OPENSMT_VERIF
+    if (OSMT_VERIF_TRACING()) { verif::emitClause("DERIVED analyzeFinal", theory_handler.getLogic(), out_conflict, [this](Var v) { return theory_handler.varToTerm(v); }); }
+#endif
     if (logsResolutionProof()) {
         // MB: Hopefully we have resolved away all literals including assumptions
         resolutionProof->endChain(CRef_Undef);
@@ -1343,6 +1357,7 @@ void CoreSMTSolver::popBacktrackPoint()
 
 bool CoreSMTSolver::okContinue() const
 {
+    OSMT_VERIF_SCHED("poll");
     return not stopped() and not globallyStopped();
 }
 
